@@ -135,7 +135,7 @@ def _explore(out, tier, seed, facts, replay):
             out.violation("conversion", "date/unixtime/datenum conversions are not mutually inverse at t=%d (%d)" % (t, date), {"unixtime": t})
     # ---- slices on generated datasets (model tie + partition identities on the implementation) ----
     n = 80 if tier == "quick" else 800
-    stats, cases = datatie.run_tie(out, seed, n, 14, "c11", options=False)
+    stats, cases = datatie.run_tie(out, seed, n, 14, "c11", options=True)       # with -d / -tod / -t selections: the slices are those of the SELECTED times
     distinct = set()
     samples = []
     for c in cases:
